@@ -86,6 +86,8 @@ class Acc:
         """v: dict(kind=..., case=..., detail=..., facts={...})"""
         from . import findings
 
+        if getattr(self, "lib_log", None) and isinstance(v.get("case"), dict):
+            v["case"].setdefault("lib_log", self.lib_log)
         fid = findings.classify(self.pid, v)
         if fid is None:
             self.unknown_total += 1
@@ -115,7 +117,17 @@ def _worker_run(args):
         mod = importlib.import_module(modname)
         acc = Acc(mod.PROPERTY)
         t0 = REAL_TIME()
-        mod.run_shard(params, acc)
+        acc.lib_log = params.get("lib_log")
+        if acc.lib_log:
+            from . import world
+
+            world.set_lib_log_level(acc.lib_log)
+        try:
+            mod.run_shard(params, acc)
+        finally:
+            if acc.lib_log:
+                world.set_lib_log_level(None)
+                acc.bump("shards_with_library_logging_at_" + acc.lib_log, 1)
         res = acc.result()
         res["shard_wall"] = round(REAL_TIME() - t0, 2)
         return ("ok", res)
@@ -362,6 +374,19 @@ def run_check(pid, tier, seed, jobs):
     return 0
 
 
+def _replay_case(mod, case):
+    from . import world
+
+    level = case.get("lib_log") if isinstance(case, dict) else None
+    if level:
+        world.set_lib_log_level(level)
+    try:
+        return mod.replay(case)
+    finally:
+        if level:
+            world.set_lib_log_level(None)
+
+
 def run_regressions(pid):
     """Replay the committed counterexamples of repaired defects
     (/verif/regressions/<ID>-*.json, same format as replay files)."""
@@ -375,7 +400,8 @@ def run_regressions(pid):
         with open(path) as fh:
             doc = json.load(fh)
         mod = importlib.import_module(doc["check"])
-        again = mod.replay(unjson(doc["violation"])["case"])
+        case = unjson(doc["violation"])["case"]
+        again = _replay_case(mod, case)
         out["replayed"] += 1
         again = [a for a in again or [] if findings.classify(pid, a) is None]
         if again:
@@ -391,7 +417,7 @@ def run_replay(pid, path):
         doc = json.load(fh)
     mod = importlib.import_module(doc["check"])
     v = unjson(doc["violation"])
-    again = mod.replay(v["case"])
+    again = _replay_case(mod, v["case"])
     if again:
         for a in again:
             print("VIOLATION property=%s replay=%s" % (pid, path))
